@@ -8,7 +8,8 @@ REQUIRED = ["DaeVerif.C08.Props." + n for n in [
     "fixed_ttl_applies", "fixed_ttl_absent", "key_case_insensitive", "key_injective", "base_of_response_key",
     "janitor_time_step", "janitor_keeps", "janitor_evicts_least_recently_used", "heap_selects_oldest",
     "lookup_and_insert_stamp_last_access", "cfg_in_force", "fresh_served", "latest_insert_wins", "removed_is_gone",
-    "latch_is_per_object_and_released_per_key",
+    "latch_is_per_object_and_released_per_key", "request_key_injective", "request_key_class_IN",
+    "request_touches_only_its_key",
 ]]
 
 
@@ -229,7 +230,7 @@ def run(ctx):
                  "op.reconf_with_real_janitor": 8, "ask.class_CH": 80, "ask.simultaneous_identical_requests": 100,
                  "ask.stale_hit_started_refresh": 60, "lookup.when.at_deadline": 40, "lookup.when.at_window_end": 20,
                  "lookup.when.fresh_last_ns": 25, "lookup.when.expired_first_ns": 40, "lookup.when.window_end_plus_1ns": 12,
-                 "insert.access_callback_fails": 40, "op.self_restore": 50, "race.latch_releases_hammered": 10000,
+                 "insert.access_callback_fails": 40, "op.self_restore": 50, "race.latch_releases_hammered": 100000,
                  "insert.reply_class_not_IN": 40, "key.class_not_IN": 100, "insert.not_cacheable_reply": 200,
                  "janitor.evicted_by_real_ticker": 200, "history.ignore_fixed_ttl_heavy": 12}
     floors_br = {"fresh.packed_exact": 80, "fresh.packed_within_slack": 500, "fresh.packed_slack_exactly_15": 50,
